@@ -14,7 +14,7 @@ impl TypeBuilder for PostgresQueryBuilder {
             self.prepare_create_as_type(as_type, sql);
         }
 
-        if !create.values.is_empty() {
+        if create.as_type.is_some() || !create.values.is_empty() {
             write!(sql, " (").unwrap();
 
             for (count, val) in create.values.iter().enumerate() {
